@@ -10,6 +10,7 @@ import (
 // GetValueFromBuffer reads one element of type t at byte index idx.
 func (w *World) GetValueFromBuffer(b *Buffer, idx int, t ElemType, little bool) Value {
 	n := t.Size()
+	w.noteFlexRead(b, idx, n, t, little)
 	var raw [8]byte
 	for i := 0; i < n; i++ {
 		if little {
@@ -19,6 +20,35 @@ func (w *World) GetValueFromBuffer(b *Buffer, idx int, t ElemType, little bool) 
 		}
 	}
 	return RawToValue(t, raw[:n])
+}
+
+// noteFlexRead counts reads of bytes whose value is implementation-chosen: a NaN stored earlier in the same operation (its encoding
+// is adopted from the implementation only after the operation) read back other than as exactly that float element.
+func (w *World) noteFlexRead(b *Buffer, idx, n int, t ElemType, little bool) {
+	any := false
+	for i := idx; i < idx+n; i++ {
+		if b.Flex[i] {
+			any = true
+			break
+		}
+	}
+	if !any {
+		return
+	}
+	if t.IsFloat() {
+		for _, c := range b.NaNs {
+			if c.Off == idx && c.Size == n && c.Little == little {
+				all := true
+				for i := idx; i < idx+n; i++ {
+					all = all && b.Flex[i]
+				}
+				if all {
+					return // reads back as NaN whatever the payload
+				}
+			}
+		}
+	}
+	w.FlexReads++
 }
 
 // SetValueInBuffer writes a Number / BigInt (already converted to the right numeric kind) at byte index idx.
